@@ -54,8 +54,8 @@ class HandlerHooks(Hooks):
     def opaque_call(self, eng, st, fn, args, kwargs):
         n = fn.name
         if n == "ExecutionState.get_checkpoint_result":
-            st.emit("read", id=args[0] if args else kwargs.get("checkpoint_id"))
             rec = st.ghost["rec"]
+            st.emit("read", id=args[0] if args else kwargs.get("checkpoint_id"), rec=rec)
             cr = eng.program.cls("state.CheckpointedResult")
             out = []
             for absent, s in eng.branch(st, is_none(rec)):
@@ -92,34 +92,34 @@ class HandlerHooks(Hooks):
             return [("val", fresh("bool", "is_replaying"), st)]
         if n in ("SerDes.serialize", "SerDes.deserialize"):
             st.emit("call", name=n, args=tuple(args), kwargs=dict(kwargs), recv=fn.info)
+            s2 = st.fork() if self.serdes_raises else None
             res = fresh("str", "serialized") if n.endswith(".serialize") else self.deser(eng, st, fn.info, args[0])
             if n.endswith(".serialize"):
-                st.ghost.setdefault("ser", [])
-                st.ghost["ser"] = st.ghost["ser"] + [(fn.info, args[0], res)]
+                st.ghost["ser"] = st.ghost.get("ser", []) + [(fn.info, args[0], res)]
             out = [("val", res, st)]
-            if self.serdes_raises:
-                s2 = st.fork()
-                s2.trace[-1] = s2.trace[-1]
+            if s2 is not None:
                 exc = eng.new_symexc(s2, "serdes")
                 s2.emit("raised", name=n, exc=exc)
                 out.append(("raise", exc, s2))
             return out
         if n.startswith("retry_strategy") or n == "wait_strategy":
-            st.emit("call", name=n, args=tuple(args), kwargs=dict(kwargs))
+            ev_ = st.emit("call", name=n, args=tuple(args), kwargs=dict(kwargs))
             dec_cls = eng.program.cls("retries.RetryDecision" if n.startswith("retry") else "waits.WaitForConditionDecision")
             dur_cls = eng.program.cls("config.Duration")
             secs = fresh("int", "delay")
             st.assume(secs.t >= 0)  # Duration.__post_init__ rejects negatives
             dur = st.alloc(dur_cls, {"seconds": secs})
             first = "should_retry" if n.startswith("retry") else "should_continue"
-            dec = st.alloc(dec_cls, {first: fresh("bool", first), "delay": dur})
+            should = fresh("bool", first)
+            dec = st.alloc(dec_cls, {first: should, "delay": dur})
+            ev_.d.update(result=dec, should=should.t, delay=secs.t)
             s2 = st.fork()
             exc = eng.new_symexc(s2, "strategy")
             s2.emit("raised", name=n, exc=exc)
             return [("val", dec, st), ("raise", exc, s2)]
         if n in USER_FUNCS or n == "summary_generator":
-            st.emit("call", name=n, args=tuple(args), kwargs=dict(kwargs))
             res = fresh("any", n + "_ret") if n != "summary_generator" else fresh("str", "summary")
+            st.emit("call", name=n, args=tuple(args), kwargs=dict(kwargs), result=res)
             out = [("val", res, st)]
             if self.user_raises:
                 s2 = st.fork()
